@@ -90,6 +90,28 @@ def m_u8_advance(em, e, rt, rty, env, k):
 m_u8_advance.mutates = True
 
 
+def f_vec_with_capacity(em, e, env, k):
+    """Vec::with_capacity(n) / String::with_capacity(n): the empty buffer (the capacity is evaluated, it may panic)"""
+    if len(e.args) != 1:
+        raise EmitError("with_capacity: expected 1 argument")
+    return em.expr(e.args[0], env, lambda _t, _ty, env1: k("[]", BYTES, env1))
+
+
+def m_list_extend(em, e, rt, rty, env, k):
+    """Vec<u8>::extend(&[u8]): append"""
+    if len(e.args) != 1:
+        raise EmitError("extend: expected 1 argument")
+
+    def k1(t, ty, env1):
+        if ty != rty:
+            raise EmitError("extend of %r by %r" % (rty, ty))
+        return em.write_place(e.recv, "(%s ++ %s)" % (rt, t), env1, lambda env2: k("tt", ("unit",), env2))
+    return em.expr(e.args[0], env, k1)
+
+
+m_list_extend.mutates = True
+
+
 def N_path(name):
     from rs2v.rparser import N
     return N("path", segs=[name])
@@ -106,7 +128,7 @@ VOCAB = {
         "VtUtf8Receiver": {"coq": "bool", "var": "rcv", "fields": {
             "0": ("rcv_flag", "set_rcv_flag", BOOL),
         }},
-        "StrippedStr": {"coq": "str_iter_st", "var": "it", "fields": {
+        "StrippedStr": {"coq": "str_iter_st", "var": "it", "ctor": ("mkStrIt", ["bytes", "state"]), "fields": {
             "bytes": ("si_bytes", "set_si_bytes", BYTES),
             "state": ("si_state", "set_si_state", STATE),
         }},
@@ -114,7 +136,7 @@ VOCAB = {
             "bytes": ("si_bytes", "set_si_bytes", BYTES),
             "state": ("si_state", "set_si_state", STATE),
         }},
-        "StrippedBytes": {"coq": "bytes_iter_st", "var": "it", "fields": {
+        "StrippedBytes": {"coq": "bytes_iter_st", "var": "it", "ctor": ("mkBytesIt", ["bytes", "state", "utf8parser"]), "fields": {
             "bytes": ("bi_bytes", "set_bi_bytes", BYTES),
             "state": ("bi_state", "set_bi_state", STATE),
             "utf8parser": ("bi_utf8", "set_bi_utf8", U8P),
@@ -134,9 +156,17 @@ VOCAB = {
                          "ret": ("tuple", (STATE, ACTION)), "total": False, "cfg": False},
         "from_utf8_unchecked": f_from_utf8_unchecked,
         "VtUtf8Receiver": f_receiver_new,
+        "Vec::with_capacity": f_vec_with_capacity,
     },
     "methods": {
         ("coq", "advance"): m_u8_advance,
+        ("list", "extend"): m_list_extend,
+    },
+    # `for x in <iterator struct>`: the items of the (translated) `next`, Model/Imp.v iter_drain; every item
+    # but the last `None` consumes at least one byte, hence the fuel
+    "iter_conv": {
+        "StrippedBytes": ("(fun it => iter_drain g_stripped_bytes_next (S (length (bi_bytes it))) it)", True, BYTES),
+        "StrippedStr": ("(fun it => iter_drain g_stripped_str_next (S (length (si_bytes it))) it)", True, BYTES),
     },
     "opaque": {},
 }
@@ -148,8 +178,21 @@ Import ListNotations.
 Local Open Scope N_scope.
 Local Open Scope bool_scope."""
 
-# unsafe fn from_utf8_unchecked: std::str::from_utf8(..).expect(..) / std::str::from_utf8_unchecked -- std internals
-PIN_FROM_UTF8_UNCHECKED = "19b1d8098e82fbf1"
+# functions that stay hand-modelled, pinned by token hash (a change = GEN-ERROR: re-read them)
+OPAQUE = {
+    # unsafe; std::str::from_utf8(..).expect(..) / std::str::from_utf8_unchecked are std internals.  The model
+    # identifies a &str with its bytes: identity (f_from_utf8_unchecked)
+    "from_utf8_unchecked": "19b1d8098e82fbf1",
+    # std::fmt plumbing (Formatter, `?` on fmt::Result, write!): modelled by hand as "drain the iterator and
+    # concatenate" (Model/Strip.v str_iter / strip_str_model; Proofs/StripGen.v g_str_drain)
+    "StrippedStr::fmt": "2959344bfda9d87b",
+    "StrippedStr::to_string": "e454a0d8509b6f5f",
+    # return a struct that holds `&mut self.state` (/ `&mut self.utf8parser`): an aliasing borrow the value
+    # translation cannot express; modelled by hand as copy-in / copy-out around the drain
+    # (Model/Strip.v strip_*_chunks; Proofs/StripGen.v g_str_chunks / g_bytes_chunks)
+    "StripStr::strip_next": "041b5df400174d76",
+    "StripBytes::strip_next": "a45ddaf0bfd06852",
+}
 
 TARGETS = [
     ("is_utf8_continuation", None, "g_is_utf8_continuation", {}),
@@ -159,10 +202,15 @@ TARGETS = [
     ("add", "Utf8Parser", "g_utf8_add", {}),
     ("next_str", None, "g_next_str", {}),
     ("next_bytes", None, "g_next_bytes", {}),
+    ("new", "StrippedStr", "g_stripped_str_new", {}),
+    ("strip_str", None, "g_strip_str", {}),
+    ("new", "StrippedBytes", "g_stripped_bytes_new", {}),
+    ("strip_bytes", None, "g_strip_bytes", {}),
     ("next", "StrippedStr", "g_stripped_str_next", {"trait": "Iterator"}),
     ("next", "StripStrIter", "g_strip_str_iter_next", {"trait": "Iterator"}),
     ("next", "StrippedBytes", "g_stripped_bytes_next", {"trait": "Iterator"}),
     ("next", "StripBytesIter", "g_strip_bytes_iter_next", {"trait": "Iterator"}),
+    ("into_vec", "StrippedBytes", "g_stripped_bytes_into_vec", {}),
 ]
 
 
@@ -171,7 +219,7 @@ def register(generators, gm):
         try:
             src = gm.read("crates/anstream/src/adapter/strip.rs")
             v = dict(VOCAB)
-            v["opaque"] = {"from_utf8_unchecked": PIN_FROM_UTF8_UNCHECKED}
+            v["opaque"] = OPAQUE
             return translate(src, v, TARGETS, HEADER, REQ) + "\n"
         except TranslateError as e:
             raise gm.GenError(str(e))
